@@ -144,17 +144,27 @@ func (te *TimerEntry) run(ctx context.Context) error {
 	case <-t.C:
 		te.timers.c.Logf("Firing timer '%s'", te.Id)
 		te.timers.Emitter(ctx, te)
-		te.timers.Lock()
-		delete(te.timers.Map, te.Id)
-		te.timers.Unlock()
-		te.timers.c.Lock()
-		te.timers.changed()
-		te.timers.c.Unlock()
 	case <-te.Ctl:
 		te.timers.c.Logf("Canceling timer '%s'", te.Id)
 	case <-ctx.Done():
 	}
 	return nil
+}
+
+// fired is called in the crew's loop when the message of a due timer
+// arrives there.  The timer leaves the set of pending timers at that
+// moment (so the id is free for whoever handles the message), and its
+// message is returned for processing -- unless the timer was cancelled
+// (or replaced) while the message was waiting for the loop.
+func (ts *Timers) fired(te *TimerEntry) interface{} {
+	ts.Lock()
+	defer ts.Unlock()
+	if current, have := ts.Map[te.Id]; !have || current != te {
+		return nil
+	}
+	delete(ts.Map, te.Id)
+	ts.changed()
+	return te.Msg
 }
 
 func (ts *Timers) changed() {
